@@ -149,7 +149,7 @@ class Prov:
                         if did == vid:
                             src = self.of(args[1], fn, depth + 1, seen)
                             whole = cn in ('strcpy', '__builtin_strcpy') or (
-                                cn in ('memmove', '__builtin_memmove', 'memcpy') and len(args) == 3 and self._strlen_plus_one(args[2], args[1]))
+                                cn in ('memmove', '__builtin_memmove', 'memcpy') and len(args) == 3 and self._strlen_plus_one(args[2], args[1], body))
                             if whole and not conditional:
                                 out = set()      # a straight-line strcpy (or memmove of strlen+1 bytes) replaces the whole string
                             out |= src
@@ -204,9 +204,28 @@ class Prov:
         return out
 
     @staticmethod
-    def _strlen_plus_one(n, src):
-        """n is strlen(src) + 1"""
+    def _strlen_plus_one(n, src, body=None):
+        """n is strlen(src) + 1 (directly, or through a local that is defined exactly once with that value)"""
         n = astdb.strip(n, casts=True)
+        if n.get('kind') == 'DeclRefExpr' and n['referencedDecl'].get('kind') == 'VarDecl' and body is not None:
+            vid = n['referencedDecl']['id']
+            defs = []
+            for x in walk(body):
+                if x.get('kind') == 'VarDecl' and x.get('id') == vid and x.get('init'):
+                    defs.append([c for c in kids(x) if c.get('kind')][-1])
+                elif x.get('kind') == 'BinaryOperator' and x.get('opcode') == '=':
+                    l = astdb.strip(kids(x)[0])
+                    if l.get('kind') == 'DeclRefExpr' and l['referencedDecl'].get('id') == vid:
+                        defs.append(kids(x)[1])
+                elif x.get('kind') in ('CompoundAssignOperator', 'UnaryOperator') and x.get('opcode') in ('+=', '-=', '++', '--', '&'):
+                    l = astdb.strip(kids(x)[0])
+                    if l.get('kind') == 'DeclRefExpr' and l['referencedDecl'].get('id') == vid:
+                        return False
+            # a NULL/0 initialiser followed by the one real definition is the repository's declaration style
+            real = [d for d in defs if astdb.const_int(astdb.strip(d, casts=True)) != 0]
+            if len(real) != 1:
+                return False
+            n = astdb.strip(real[0], casts=True)
         if n.get('kind') != 'BinaryOperator' or n.get('opcode') != '+':
             return False
         a, b = [astdb.strip(x, casts=True) for x in kids(n)]
